@@ -194,12 +194,26 @@ every class limit `maxSize ≥ 1`, the model of `compress` — early exit, binar
 `delta_lower`/`delta_upper` jumps and the early `break`, 64 iterations of fuel, final loop with
 the `try_into().expect(…)` of the midpoint — does not panic and its result satisfies
 `CompressSpec`: at most `maxSize` classes, every value within half the tolerance of its
-representative, and the tolerance is the smallest for which *any* `maxSize` intervals cover
+representative (`2|v − rep| ≤ δ + δ mod 2`, see `no_integer_representative_better`), and the tolerance is the smallest for which *any* `maxSize` intervals cover
 the values. -/
 theorem compress_spec (values : List Int) (maxSize : Nat) (hmax : 1 ≤ maxSize)
     (hr : ∀ v ∈ values, -2147483648 ≤ v ∧ v ≤ 2147483647) :
     ∃ table m, compress values maxSize = .ok (table, m) ∧ CompressSpec values maxSize table m :=
   compress_meets_spec values maxSize hmax hr
+
+/-- **representative_optimal.** The representative the code chooses for an interval
+`first ≤ … ≤ last`, `(last + first) / 2`, is a best integer centre: for every member `v` and
+every integer `r`, `|v − rep|` is at most the distance of `r` to one of the two ends. -/
+theorem representative_optimal (f l v r : Int) (h1 : f ≤ v) (h2 : v ≤ l) :
+    absI (v - Int.tdiv (l + f) 2) ≤ absI (f - r) ∨ absI (v - Int.tdiv (l + f) 2) ≤ absI (l - r) :=
+  rep_minimax f l v r h1 h2
+
+/-- **no_integer_representative_better.** Why `CompressSpec` reads `2|v − rep| ≤ δ + δ mod 2`
+("within half the tolerance" exactly when `δ` is even, half a unit more when it is odd): two
+values an odd `δ` apart have no integer within `δ/2` of both. -/
+theorem no_integer_representative_better (f l r : Int) (hodd : (l - f) % 2 = 1) :
+    ¬ (2 * absI (f - r) ≤ l - f ∧ 2 * absI (l - r) ≤ l - f) :=
+  no_half_when_odd f l r hodd
 
 /-- The extremes of the `i32` range (a panic before /repo 3d2d8d9) are handled. -/
 example : compress [-2147483648, 2147483647] 1 =
